@@ -8,7 +8,5 @@ cd sim
 go1.26.8 vet -tags verif ./core/ ./ref/ >/dev/null 2>&1 || true
 go1.26.8 test -c -tags verif -o ../.build/props.test ./props/
 rm -f ../.build/props.test
-if [ -d ../crash ]; then
-  (cd ../crash && go1.26.8 build -o ../.build/crashtracer ./tracer/ && go1.26.8 build -o ../.build/crashchild ./child/) || exit 1
-fi
+(cd ../crash && go1.26.8 build -o ../.build/crash . && rm -f ../.build/crash)
 echo setup ok
